@@ -41,6 +41,11 @@ func validateTaxCode(value interface{}) error {
 }
 
 func validateDigits(code, check cbc.Code) error {
+	// only plain digits are allowed: the numeric parsers below would
+	// also accept a leading sign.
+	if !isDigits(code) || !isDigits(check) {
+		return errInvalidVAT
+	}
 	num, err := strconv.ParseInt(string(code), 10, 64)
 	if err != nil {
 		return errInvalidVAT
@@ -60,6 +65,15 @@ func validateDigits(code, check cbc.Code) error {
 	}
 
 	return nil
+}
+
+func isDigits(code cbc.Code) bool {
+	for i := 0; i < len(code); i++ {
+		if code[i] < '0' || code[i] > '9' {
+			return false
+		}
+	}
+	return len(code) > 0
 }
 
 func mod11(num int64) int64 {
